@@ -34,8 +34,126 @@ c.raises(('exceptions.ConnectionClosed', 'ValueError'))
 c.ensures("result.buffer + self._connection.remaining == old(self._connection.remaining)", name="frame-is-prefix")
 c.ensures("len(result.buffer) == 8 + be_int(result.buffer[4:8])", name="frame-length-from-header")
 c.modifies("self._connection.remaining")
+c.returns(('obj', 'kmip.core.utils.BytearrayStream', {'buffer': 'bytes'}))
 
 c = contract(S + "_send_response").props('C12')
 c.args(self=SESSION, data='bytes')
+c.inlined()       # three lines: callers execute the body, so the socket model records the send
 c.trace("sends-once-iff-nonempty",
         lambda ev, outcome, exc: True if len([e for e in ev if e[0] == 'send']) <= 1 else "sent twice")
+
+# ---------------------------------------------------------------- message loop (C12, C17)
+RM = "kmip.core.messages.messages.RequestMessage."
+HEADER = ('obj', 'kmip.core.messages.messages.RequestHeader',
+          {'authentication': 'opaque', 'protocol_version': 'opaque'})
+
+c = contract(RM + "read").props('C12', 'C17')
+c.args(self=('obj', 'kmip.core.messages.messages.RequestMessage', {}), istream='opaque',
+       kmip_version=('enum', 'kmip.core.enums.KMIPVersion'))
+c.may_raise_anything()
+c.modifies("self.request_header", "self.batch_items")
+c.modifies_kinds = {"self.request_header": HEADER, "self.batch_items": 'opaque'}
+c.trust("decoder of the request message (covered by C01/ttlvsym); here: any bytes either raise or "
+        "yield a request with a header")
+
+LOOP_SESSION = ('obj', 'kmip.services.server.session.KmipSession',
+                {'_connection': ('model', 'Connection'), '_engine': ('model', 'Engine'),
+                 '_max_buffer_size': ('const', 4096), '_max_response_size': ('const', 1048576),
+                 '_enable_tls_client_auth': 'bool', '_auth_settings': 'opaque', '_logger': 'logger',
+                 '_address': 'opaque', '_session_time': 'opaque', 'name': 'str'})
+AUTH_FAIL = 'AUTHENTICATION_NOT_SUCCESSFUL'
+
+
+def _names(ev, kind, suffix):
+    return [i for i, e in enumerate(ev) if e[0] == kind and len(e) > 1 and str(e[1]).endswith(suffix)]
+
+
+def t_one_response(ev, outcome, exc):
+    if outcome != 'return':
+        return True
+    n = len([e for e in ev if e[0] == 'send'])
+    return True if n == 1 else "%d responses sent for one request" % n
+
+
+def t_engine_guarded(ev, outcome, exc):
+    """process_request only after a successful decode and a successful authentication, with the
+    identity that authentication returned."""
+    for i, e in enumerate(ev):
+        if e[0] != 'engine.process_request':
+            continue
+        before = ev[:i]
+        reads = [x for x in before if x[0] == 'return' and x[1].endswith('RequestMessage.read')]
+        auths = [x for x in before if x[0] == 'return' and x[1].endswith('KmipSession.authenticate')]
+        certs = [x for x in before if x[0] == 'return' and x[1].endswith('get_certificate_from_connection')]
+        if not reads:
+            return "engine entered although the request was not decoded"
+        if not auths:
+            return "engine entered although authentication did not succeed"
+        if not certs:
+            return "engine entered without looking at the client certificate"
+        if auths[-1][2] != e[2]:
+            return "identity handed to the engine is not the one authentication returned"
+    return True
+
+
+def t_failures_answered(ev, outcome, exc):
+    """No engine call => the response sent is an error response with the right reason."""
+    if outcome != 'return':
+        return True
+    if any(e[0] == 'engine.process_request' for e in ev):
+        return True
+    errs = [e for e in ev if e[0] == 'engine.error_response']
+    if not errs:
+        return "no engine call and no error response"
+    reasons = [getattr(e[1], 'name', str(e[1])) for e in errs]
+    read_ok = any(x[0] == 'return' and x[1].endswith('RequestMessage.read') for x in ev)
+    if read_ok and reasons[0] != AUTH_FAIL:
+        return "request decoded, engine not entered, but the answer is %s" % reasons[0]
+    if reasons[0] not in (AUTH_FAIL, 'INVALID_MESSAGE'):
+        return "undecodable/unauthenticated request answered with %s" % reasons[0]
+    return True
+
+
+def t_sent_is_last_built(ev, outcome, exc):
+    if outcome != 'return':
+        return True
+    writes = [e for e in ev if e[0] == 'response.write']
+    errs = [e for e in ev if e[0] == 'engine.error_response']
+    if len(writes) == 2:
+        if writes[1][1] != 'error' or getattr(writes[1][2], 'name', '') != 'RESPONSE_TOO_LARGE':
+            return "second encoding is not the response-too-large error"
+    if len(writes) > 2:
+        return "more than two encodings"
+    return True
+
+
+def t_only_framing_raises(ev, outcome, exc):
+    if outcome != 'raise':
+        return True
+    if any(e[0] == 'return' and e[1].endswith('_receive_request') for e in ev):
+        return "exception %s escaped the message loop after the request was framed" % exc.cls.__name__
+    return True
+
+
+c = contract(S + "_handle_message_loop").props('C12', 'C17')
+c.args(self=LOOP_SESSION)
+c.raises(('exceptions.ConnectionClosed', 'ValueError'))
+c.trace("exactly-one-response", t_one_response)
+c.trace("engine-only-after-decode-and-authentication", t_engine_guarded)
+c.trace("failures-answered-with-the-right-error", t_failures_answered)
+c.trace("oversize-replaced-by-too-large-error", t_sent_is_last_built)
+c.trace("nothing-escapes-after-framing", t_only_framing_raises)
+c.modifies("self._connection.remaining", "self._connection.sent")
+c.allow_external()
+
+c = contract(S + "run").props('C12')
+c.args(self=LOOP_SESSION)
+c.loop(0, "True", modifies=["self._connection.remaining", "self._connection.sent"])
+c.trace("loop-ends-only-when-the-peer-closes",
+        lambda ev, outcome, exc: True if outcome != 'return'
+        or any(e[0] == 'raise' and e[1] == 'ConnectionClosed' for e in ev)
+        or any(e[0] == 'raise' and e[1] == 'HandshakeFailure' for e in ev)
+        else "message loop left without ConnectionClosed")
+c.raises('OSError')
+c.modifies("self._connection.remaining", "self._connection.sent")
+c.allow_external()
